@@ -197,8 +197,8 @@ def run(cx):
             cx.ob('GUARD', 'DiscreteDomain::push:finite', g1 is not None, 'the append is dominated by value.is_finite()', where=site,
                   found='; '.join(cx.show_guards(b, m.bb)))
             ok, off = cx.all_paths(b, m.bb, lambda has:
-                                   has('(call *is_empty (param self))', True) or has('(call Vec::is_empty (self values))', True) or
-                                   has('(lt (param value) (index (self values) (sub (len (self values)) 1)))', False))
+                                   has('(empty (param self))', True) or has('(empty (self values))', True) or
+                                   has('(lt (param value) (last (self values)))', False) or has('(lt (param value) (last (param self)))', False))
             cx.ob('GUARD', 'DiscreteDomain::push:order', ok, 'the append happens only when the domain is empty or value >= the last value', where=site,
                   found='; '.join(off) if off else None)
             cx.expect('EXPR', 'DiscreteDomain::push:value', cx.arg(site, 1), '(param value)', 'the checked value is the one appended', where=site)
